@@ -1,14 +1,103 @@
 (** C01: Newick write/parse round trip preserves the whole tree.  Statements only; the
-    proofs are in Proofs/Newick*.v. *)
-From Coq Require Import String ZArith QArith Bool List.
-From GT Require Import Base.UTree Model.Newick Proofs.NewickFuel.
-Local Close Scope Q_scope.
+    proofs are in Proofs/Newick*.v.
 
-(** The parser of Model/Newick.v, run with the fuel [S (length s)] that [parse] gives it,
-    never stops for lack of fuel, whatever the input text and whatever ParseFloat does:
-    the model of the reader is total. *)
+    [write], [parse]: Model/Newick.v (Node.Newick/Tree.Newick, io/newick lexer and parser).
+    [wfN]: Spec/NewickSpec.v, the boolean transcription of the quantifier of C01.
+    [rose_of]: the rooted ordered tree with all decorations (parent slots dropped);
+    [rose_eqb] compares names, comments, shape and child order exactly and lengths, supports,
+    p-values as rationals ([Qeq]; the representation of numbers in the model is not
+    canonical, so Leibniz equality on [Q] would be the wrong notion).
+    [strconv_ok fmt numeric parse_num numok]: the assumed behaviour of
+    strconv.FormatFloat(x,'f',-1,64) / strconv.ParseFloat on the numbers [numok]
+    (Proofs/NewickCanon.v): the text of x is a non-empty token without ()[],:;/ and blanks,
+    ParseFloat accepts it and reads back x, equal numbers have equal texts, no text
+    containing '/' is a float. *)
+From Coq Require Import String ZArith QArith Bool List.
+From GT Require Import Base.UTree Model.Newick Model.NewickNum Spec.NewickSpec
+     Proofs.NewickFuel Proofs.NewickCanon Proofs.NewickRound Proofs.NewickNumC.
+Import ListNotations.
+Local Close Scope Q_scope.
+Local Open Scope string_scope.
+
+(** (i) Round trip, for every tree inside the quantifier, under the assumed behaviour of
+    strconv: the parser accepts the writer's text, the tree read back has the same rose view,
+    and writing it again gives byte-identical text. *)
+Theorem C01_round_trip :
+  forall (fmt : Q -> string) (numeric : string -> bool) (parse_num : string -> option Q) (numok : Q -> bool),
+    strconv_ok fmt numeric parse_num numok ->
+    forall t, wfN numeric numok t = true ->
+      exists t', parse numeric parse_num (write fmt t) = POk t' /\
+                 rose_eqb (rose_of t') (rose_of t) = true /\
+                 write fmt t' = write fmt t.
+Proof. exact round_trip. Qed.
+Print Assumptions C01_round_trip.
+
+(** the tree read back, explicitly: parent slot first in every non-root node, every number
+    replaced by what ParseFloat reads from its text *)
+Theorem C01_parse_write :
+  forall (fmt : Q -> string) (numeric : string -> bool) (parse_num : string -> option Q) (numok : Q -> bool),
+    strconv_ok fmt numeric parse_num numok ->
+    forall t, wfN numeric numok t = true ->
+      parse numeric parse_num (write fmt t) = POk (canon_root fmt parse_num t).
+Proof. exact parse_write. Qed.
+Print Assumptions C01_parse_write.
+
+(** The hypotheses are satisfiable: the executable model of strconv used by the
+    correspondence check (Model/NewickNum.v: ParseFloat syntax, correct rounding to binary64,
+    shortest round-tripping decimal) satisfies them on the numbers [numokC], those for which
+    its own FormatFloat/ParseFloat pair round-trips (a decidable check, Proofs/NewickNumC.v). *)
+Theorem C01_strconv_model_ok : strconv_ok fmt_go numericC parse_numC numokC.
+Proof. exact strconv_ok_C. Qed.
+Print Assumptions C01_strconv_model_ok.
+
+(** ... hence the round trip of the executable model, without any hypothesis. *)
+Theorem C01_round_trip_model :
+  forall t, wfN numericC numokC t = true ->
+    exists t', parse numericC parse_numC (write fmt_go t) = POk t' /\
+               rose_eqb (rose_of t') (rose_of t) = true /\
+               write fmt_go t' = write fmt_go t.
+Proof. exact (round_trip fmt_go numericC parse_numC numokC strconv_ok_C). Qed.
+Print Assumptions C01_round_trip_model.
+
+(** (ii) The parser run with the fuel [S (length s)] that [parse] gives it never stops for
+    lack of fuel, whatever the input text and whatever ParseFloat does: the model of the
+    reader is total. *)
 Theorem C01_fuel_irrelevant :
   forall (numeric : string -> bool) (parse_num : string -> option Q) (s : string),
     parse numeric parse_num s <> POutOfFuel.
 Proof. exact parse_no_fuel. Qed.
 Print Assumptions C01_fuel_irrelevant.
+
+(** The quantifier is not vacuous: a rooted-at-a-trifurcation tree with a multifurcation, inner
+    and root names, supports with and without p-value, numeric-looking tip names, node, root
+    and branch comments with hostile content, a parent slot that is not first. *)
+Definition ex_tree : utree :=
+  UNode "root/x" ["r;1"; "(,):"]
+    [Some (mkE (1#2) nilv nilv ["b c"], UNode "1e5" ["tip[c"] [None]);
+     Some (mkE (3#64) (15#16) (1#1024) [],
+           UNode "" [" n1 "; ""]
+             [Some (mkE nilv nilv nilv [], UNode "a b" [] [None]);
+              None;
+              Some (mkE (0#1) nilv nilv [], UNode "0x1p-2" [] [None]);
+              Some (mkE (12345#1) (7#8) nilv [";"], UNode "" [] [None; Some (mkE ((-3)#4) nilv nilv [], UNode "x" [] [None]);
+                                                                Some (mkE nilv nilv nilv [], UNode "12" [] [None])])]);
+     Some (mkE (1#1024) nilv nilv [], UNode "I 7" ["k:v"] [None; Some (mkE nilv nilv nilv [], UNode "y" [] [None]);
+                                                           Some (mkE (5#1) nilv nilv [], UNode "z" [] [None])])].
+
+Example C01_example_in_quantifier : wfN numericC numokC ex_tree = true.
+Proof. vm_compute. reflexivity. Qed.
+Print Assumptions C01_example_in_quantifier.
+
+Example C01_example_text :
+  write fmt_go ex_tree =
+  "(1e5[tip[c]:0.5[b c],(a b,0x1p-2:0,(x:-0.75,12)0.875:12345[;])0.9375/0.0009765625[ n1 ][]:0.046875,(y,z:5)I 7[k:v]:0.0009765625)root/x[r;1][(,):];".
+Proof. vm_compute. reflexivity. Qed.
+Print Assumptions C01_example_text.
+
+(** the numbers the generators use are numbers of the executable strconv model *)
+Example C01_example_numbers :
+  forallb numokC (map (fun k => Qmake (Z.of_nat k - 300) 64) (seq 0 700) ++
+                  map (fun k => Qmake (Z.of_nat k) 1024) (seq 0 300) ++
+                  [Qmake 3602879701896397 36028797018963968; Qmake 86719 262144; inject_Z 123456789012345]) = true.
+Proof. vm_compute. reflexivity. Qed.
+Print Assumptions C01_example_numbers.
